@@ -210,6 +210,14 @@ pub enum Cmd {
     LB(u16, Option<usize>, u32),
     DA(u16),
     SD(u32),
+    /// (run time) tell the model the implementation's current registers + control state
+    Sync,
+    /// (run time) like Sync but with PC replaced
+    SetPC(u16),
+    /// (run time) repeat [X ; SetPC pc0] until BC = 0 (or, when `stop_on_z`, Z is set); at most `max` rounds
+    Singles { pc0: u16, stop_on_z: bool, max: u32 },
+    /// register-pair accessor round trip: set pair `which` (0 BC 1 DE 2 HL 3 IX 4 IY 5 AF) to `v`
+    SetPair(u8, u16),
 }
 
 impl Cmd {
@@ -237,6 +245,8 @@ impl Cmd {
             },
             Cmd::DA(a) => format!("DA {:04X}", a),
             Cmd::SD(d) => format!("SD {:X}", d),
+            Cmd::SetPair(w, v) => format!("SP16 {} {:04X}", w, v),
+            Cmd::Sync | Cmd::SetPC(_) | Cmd::Singles { .. } => "<runtime>".into(),
         }
     }
 }
@@ -277,6 +287,22 @@ fn load_regs(c: &mut CPU, s: &St) {
     t.e = s.alt[5];
     t.h = s.alt[6];
     t.l = s.alt[7];
+}
+
+/// registers + control state of the implementation in the `P` line format
+pub fn regctl_of(c: &CPU, pc: Option<u16>) -> String {
+    let r = &c.reg;
+    let t = &c.alt;
+    let k = c.verif_ctl();
+    format!(
+        "{:02X}{:02X}{:02X}{:02X}{:02X}{:02X}{:02X}{:02X}{:02X}{:02X}{:02X}{:02X}{:02X}{:02X} {:04X} {:04X} {:02X}{:02X}{:02X}{:02X}{:02X}{:02X}{:02X}{:02X} {} {} {} {:02X} {} {}",
+        r.a, r.flags.to_byte(), r.b, r.c, r.d, r.e, r.h, r.l, r.ixh, r.ixl, r.iyh, r.iyl, r.i, r.r, r.sp,
+        pc.unwrap_or(r.pc),
+        t.a, t.flags.to_byte(), t.b, t.c, t.d, t.e, t.h, t.l,
+        k.halt as u8,
+        match k.int { None => "--".to_string(), Some(b) => format!("{:02X}", b) },
+        k.nmi as u8, k.im, k.iff1 as u8, k.iff2 as u8
+    )
 }
 
 pub fn state_reply(c: &CPU, cyc: u32) -> String {
@@ -369,9 +395,48 @@ impl Imp {
         });
     }
 
-    /// Execute one command on the real implementation; the reply has the driver's format.
+    /// Execute one command; returns the driver line(s) it stands for with the implementation's replies.
+    pub fn exec_lines(&mut self, cmd: &Cmd) -> Vec<(String, String)> {
+        match cmd {
+            Cmd::Sync => vec![(format!("P {}", regctl_of(&self.cpu, None)), "ok".into())],
+            Cmd::SetPC(pc) => {
+                self.cpu.reg.pc = *pc;
+                vec![(format!("P {}", regctl_of(&self.cpu, None)), "ok".into())]
+            }
+            Cmd::Singles { pc0, stop_on_z, max } => {
+                let mut out = vec![];
+                for _ in 0..*max {
+                    let cyc = self.cpu.execute();
+                    out.push(("X".to_string(), state_reply(&self.cpu, cyc)));
+                    let done = self.cpu.reg.get_bc() == 0 || (*stop_on_z && self.cpu.reg.flags.z);
+                    if done {
+                        break;
+                    }
+                    self.cpu.reg.pc = *pc0;
+                    out.push((format!("P {}", regctl_of(&self.cpu, None)), "ok".into()));
+                }
+                out
+            }
+            _ => vec![(cmd.line(), self.exec(cmd))],
+        }
+    }
+
+    /// Execute one plain command on the real implementation; the reply has the driver's format.
     pub fn exec(&mut self, cmd: &Cmd) -> String {
         match cmd {
+            Cmd::Sync | Cmd::SetPC(_) | Cmd::Singles { .. } => unreachable!(),
+            Cmd::SetPair(w, v) => {
+                let r = &mut self.cpu.reg;
+                let got = match w {
+                    0 => { r.set_bc(*v); r.get_bc() }
+                    1 => { r.set_de(*v); r.get_de() }
+                    2 => { r.set_hl(*v); r.get_hl() }
+                    3 => { r.set_ix(*v); r.get_ix() }
+                    4 => { r.set_iy(*v); r.get_iy() }
+                    _ => { r.set_af(*v); r.get_af() }
+                };
+                format!("{} {:04X}", state_reply(&self.cpu, 0), got)
+            }
             Cmd::S(s) => {
                 let len = s.top as usize + 1;
                 let mut img = self.image(s.seed, len);
@@ -464,7 +529,8 @@ impl Imp {
                 "ok".into()
             }
             Cmd::LB(org, len, seed) => {
-                self.tmpn += 1;
+                static NEXT: std::sync::atomic::AtomicU64 = std::sync::atomic::AtomicU64::new(0);
+                self.tmpn = NEXT.fetch_add(1, std::sync::atomic::Ordering::SeqCst);
                 let path = format!("{}/lb_{}_{}.bin", self.tmpdir, std::process::id(), self.tmpn);
                 if let Some(n) = len {
                     let data: Vec<u8> = (0..*n).map(|i| fill_byte(*seed, i as u32)).collect();
